@@ -17,7 +17,9 @@ use truc::record::type_resolver::HostTypeResolver;
 use verif_harness::Rng;
 
 /// lab field types: name, size, align, Copy?
-const TYPES: [(&str, usize, usize, bool); 13] = [
+const TYPES: [(&str, usize, usize, bool); 16] = [
+    // real std heap types (values carry JSON escapes); no drop logging for them
+    ("String", 24, 8, false), ("Box<str>", 16, 8, false), ("Vec<u8>", 24, 8, false),
     ("P1", 1, 1, true), ("P2", 2, 2, true), ("P4", 4, 4, true), ("P8", 8, 8, true), ("P16", 16, 16, true),
     ("P3", 3, 1, true), ("P12", 12, 4, true), ("P24", 24, 8, true),
     ("H", 8, 8, false), ("O3", 3, 1, false), ("A16", 16, 16, false), ("Z", 0, 1, false), ("Z8", 0, 8, false),
@@ -86,7 +88,7 @@ impl<'a> Gen<'a> {
         let mut vals = vec![];
         for f in fs {
             let v = self.val(&f.ty);
-            write!(lit, "{}: {}::mk({}), ", f.name, f.ty, v).unwrap();
+            write!(lit, "{}: <{}>::mk({}), ", f.name, f.ty, v).unwrap();
             vals.push(v.to_string());
         }
         (lit, if vals.is_empty() { "-".into() } else { vals.join(",") })
@@ -112,7 +114,7 @@ impl<'a> Gen<'a> {
         let f = self.vs[r.v].data[fi].clone();
         // an uninitialised droppable field cannot exist (only Copy types may stay uninitialised)
         let v = self.val(&f.ty);
-        let code = format!("*{}.{}_mut() = {}::mk({}); flush(out, \"ok\".into());", self.acc(r), f.name, f.ty, v);
+        let code = format!("*{}.{}_mut() = <{}>::mk({}); flush(out, \"ok\".into());", self.acc(r), f.name, f.ty, v);
         self.op(&format!("set {} {} {}", r.n, fi, v), &code);
         r.init[fi] = true;
     }
@@ -195,6 +197,10 @@ impl<'a> Gen<'a> {
         let n = self.next_reg; self.next_reg += 1;
         let code = if fmt == "json" {
             format!("let mut r{n}: {ty} = {{ let s = serde_json::to_string(&{a}).unwrap(); serde_json::from_str(&s).unwrap() }}; flush(out, \"ok\".into());", n = n, ty = self.rty(r.v), a = self.acc(r))
+        } else if fmt == "jsonv" {
+            format!("let mut r{n}: {ty} = {{ let v = serde_json::to_value(&{a}).unwrap(); serde_json::from_value(v).unwrap() }}; flush(out, \"ok\".into());", n = n, ty = self.rty(r.v), a = self.acc(r))
+        } else if fmt == "jsonr" {
+            format!("let mut r{n}: {ty} = {{ let s = serde_json::to_vec(&{a}).unwrap(); serde_json::from_reader(std::io::Cursor::new(s)).unwrap() }}; flush(out, \"ok\".into());", n = n, ty = self.rty(r.v), a = self.acc(r))
         } else {
             format!("let mut r{n}: {ty} = {{ let s = bincode::serialize(&{a}).unwrap(); bincode::deserialize(&s).unwrap() }}; flush(out, \"ok\".into());", n = n, ty = self.rty(r.v), a = self.acc(r))
         };
@@ -224,12 +230,16 @@ impl<'a> Gen<'a> {
         let code = if json {
             let mutate = match kind {
                 "trunc" => format!("arr.truncate({});", k),
-                "corrupt" => format!("arr[{}] = serde_json::Value::String(\"x\".into());", k),
+                "corrupt" => format!("arr[{}] = serde_json::Value::Bool(true);", k),
                 _ => "arr.push(serde_json::Value::from(0u64));".to_string(),
             };
             format!("{{ {cl} let mut val = serde_json::to_value(&{a}).unwrap(); {{ let arr = val.as_array_mut().unwrap(); {m} }} let s = val.to_string(); let res: Result<{ty}, _> = serde_json::from_str(&s); match res {{ Ok(c) => {{ mute(true); drop(c); mute(false); flush(out, \"ok?\".into()); }} Err(e) => flush(out, format!(\"err {{}}\", cls(e.to_string()))) }} }}", cl = classify, a = self.acc(r), m = mutate, ty = ty)
         } else {
-            format!("{{ {cl} let mut bytes = bincode::serialize(&{a}).unwrap(); bytes.truncate(8 * {k}); let res: Result<{ty}, _> = bincode::deserialize(&bytes); match res {{ Ok(c) => {{ mute(true); drop(c); mute(false); flush(out, \"ok?\".into()); }} Err(e) => flush(out, format!(\"err {{}}\", cls(e.to_string()))) }} }}", cl = classify, a = self.acc(r), k = k, ty = ty)
+            // byte length of the first k elements: 8 for the lab types (u64), length-prefixed for the std text types
+            let cut: String = self.vs[r.v].data.iter().take(k).map(|f| if matches!(f.ty.as_str(), "String" | "Box<str>" | "Vec<u8>") {
+                "cut += 8 + u64::from_le_bytes(bytes[cut..cut + 8].try_into().unwrap()) as usize; ".to_string()
+            } else { "cut += 8; ".to_string() }).collect();
+            format!("{{ {cl} let mut bytes = bincode::serialize(&{a}).unwrap(); let mut cut: usize = 0; {cut}bytes.truncate(cut); let res: Result<{ty}, _> = bincode::deserialize(&bytes); match res {{ Ok(c) => {{ mute(true); drop(c); mute(false); flush(out, \"ok?\".into()); }} Err(e) => flush(out, format!(\"err {{}}\", cls(e.to_string()))) }} }}", cl = classify, a = self.acc(r), cut = cut, ty = ty)
         };
         self.op(&format!("debad {} {} {} {}", if json { "json" } else { "bincode" }, r.n, kind, k), &code);
     }
@@ -263,7 +273,7 @@ impl<'a> Gen<'a> {
             if self.rng.chance(1, 2) { self.clone_bomb(&r); }
             if self.rng.chance(1, 2) { self.de_bad(&r); }
             if self.rng.chance(1, 2) {
-                let fmt = if self.rng.chance(1, 2) { "json" } else { "bincode" };
+                let fmt = *self.rng.pick(&["json", "json", "jsonv", "jsonr", "bincode", "bincode"]);
                 if let Some(d) = self.serde(&r, fmt) { self.all_gets(&d); self.end_of_life(d); }
             }
             // conversion chain from v to the last variant (random forms), or stop early
@@ -348,11 +358,36 @@ fn main() {
     let mut req = String::new();
     let mut main_rs = String::from("#![allow(unused_mut, unused_variables, dead_code, unused_imports, clippy::all)]\n#[macro_use]\nextern crate static_assertions;\nmod support;\nuse support::*;\n\n");
     let mut calls = String::new();
-    for i in 0..ndefs {
+    verif_harness::silence_panics();
+    let mut panics = String::new();
+    let mut layouts = String::new();
+    let mut i = 0usize;
+    let mut attempts = 0usize;
+    while i < ndefs && attempts < 4 * ndefs + 8 {
+        attempts += 1;
         let mut r = rng.fork();
-        let def = build_def(&mut r, &mut req);
-        let cfg = GeneratorConfig::default_with_custom_generators([Box::new(CloneImplGenerator) as Box<dyn FragmentGenerator>, Box::new(SerdeImplGenerator) as Box<dyn FragmentGenerator>]);
-        let text = truc::generator::generate(&def, &cfg);
+        // building or generating an accepted definition must not panic (C13): a panic is recorded with the requests
+        // that led to it, and the module is skipped so that the other properties can still be examined
+        let mut local = String::new();
+        let built = std::panic::catch_unwind(std::panic::AssertUnwindSafe(|| {
+            let def = build_def(&mut r, &mut local);
+            let cfg = GeneratorConfig::default_with_custom_generators([Box::new(CloneImplGenerator) as Box<dyn FragmentGenerator>, Box::new(SerdeImplGenerator) as Box<dyn FragmentGenerator>]);
+            let text = truc::generator::generate(&def, &cfg);
+            (def, text)
+        }));
+        let (def, text) = match built {
+            Ok(x) => x,
+            Err(_) => {
+                panics.push_str(&format!("PANIC while building / generating this definition\n{}--\n", local));
+                continue;
+            }
+        };
+        req.push_str(&local);
+        // the real builder's layout of every variant, for the independent overlap / alignment oracle
+        for (k, v) in def.variants().enumerate() {
+            let items: Vec<String> = v.data_sorted().map(|d| { let dd = &def[d]; format!("{}:{}:{}:{}", dd.name(), dd.details().offset(), dd.details().size(), dd.details().type_align()) }).collect();
+            layouts.push_str(&format!("m{} v{} {}\n", i, k, items.join(",")));
+        }
         let m = format!("m{}", i);
         writeln!(main_rs, "mod {} {{\n    use crate::support::*;\n{}\n}}\n", m, text).unwrap();
         // every fourth definition: the other three fragment selections must compile too
@@ -370,7 +405,11 @@ fn main() {
         req.push_str(&g.req);
         writeln!(main_rs, "fn run_{}(out: &mut Out) {{\n    out.marker();\n{}}}\n", m, g.code).unwrap();
         writeln!(calls, "    run_m{}(&mut out);", i).unwrap();
+        i += 1;
     }
+    std::fs::create_dir_all(labdir).unwrap();
+    std::fs::write(format!("{}/panics.txt", labdir), panics).unwrap();
+    std::fs::write(format!("{}/layouts.txt", labdir), layouts).unwrap();
     writeln!(main_rs, "fn main() {{\n    let dir = std::env::args().nth(1).unwrap();\n    let mut out = Out::open(&dir);\n{}}}", calls).unwrap();
     std::fs::create_dir_all(format!("{}/src", labdir)).unwrap();
     std::fs::write(format!("{}/src/main.rs", labdir), main_rs).unwrap();
